@@ -282,10 +282,76 @@ func ruleBatchBuffer(c *Ctx) {
 		}}, newSettledEv(sr, "flush", callMatcher(F(flush)))}, all, "a save returns success only with the region in the buffer and no failed flush")
 }
 
+// ruleRegionBackendSelection: region records live either in the dedicated
+// region storage or in the default backend, selected by the useRegionStorage
+// flag. Load, save and delete must agree on that selection, otherwise a record
+// saved in one backend is deleted from (or loaded from) the other: every use of
+// s.regionStorage as the region backend is under `useRegionStorage > 0`, every
+// use of the default backend for region records under the opposite edge.
+// (Flush and Close act on the region storage whenever it is attached: exempt.)
+func ruleRegionBackendSelection(c *Ctx) {
+	P := c.P
+	rule := c.Prop + "/backend-selection"
+	flag := P.Field("server/core", "Storage", "useRegionStorage")
+	rs := P.Field("server/core", "Storage", "regionStorage")
+	isFlagLoad := func(v ssa.Value) bool {
+		cl, _ := callOf(v)
+		if cl == nil || cl.Call.StaticCallee() == nil || cl.Call.StaticCallee().Name() != "LoadInt32" || len(cl.Call.Args) != 1 {
+			return false
+		}
+		return fieldOfAddr(cl.Call.Args[0]) == flag
+	}
+	on := guardRel("useRegionStorage > 0", "> !=", isFlagLoad, isConstInt(0))
+	off := guardRel("useRegionStorage == 0", "== <=", isFlagLoad, isConstInt(0))
+	helpers := []Callee{F(P.Func("server/core", "loadRegion")), F(P.Func("server/core", "loadRegions")), F(P.Func("server/core", "saveRegion")), F(P.Func("server/core", "deleteRegion"))}
+	n := 0
+	for _, name := range []string{"LoadRegion", "LoadRegions", "LoadRegionsOnce", "SaveRegion", "DeleteRegion"} {
+		fn := P.Method("server/core", "Storage", name)
+		c.saw(fnName(fn))
+		k := 0
+		for _, b := range fn.Blocks {
+			for _, ins := range b.Instrs {
+				ci, ok := ins.(ssa.CallInstruction)
+				if !ok {
+					continue
+				}
+				// the backend operand: receiver of a RegionStorage method, or first argument of a region helper
+				var backend ssa.Value
+				if isCallTo(ins, helpers...) {
+					if a := ci.Common().Args; len(a) > 0 {
+						backend = a[0]
+					}
+				} else if f := ci.Common().StaticCallee(); f != nil && f.Signature.Recv() != nil && namedOf(f.Signature.Recv().Type()) != nil &&
+					namedOf(f.Signature.Recv().Type()).Obj().Name() == "RegionStorage" && len(ci.Common().Args) > 0 {
+					backend = ci.Common().Args[0]
+				}
+				if backend == nil {
+					continue
+				}
+				k++
+				n++
+				target := ins
+				construct := fmt.Sprintf("region backend #%d in %s", k, fnName(fn))
+				if derivesFrom(backend, loadOfField(rs), 3) {
+					c.need(rule, fn, construct+" (region storage)", func(x ssa.Instruction) bool { return x == target }, []Ev{on}, all,
+						"the dedicated region storage is used only while useRegionStorage is set")
+				} else {
+					c.need(rule, fn, construct+" (default backend)", func(x ssa.Instruction) bool { return x == target }, []Ev{off}, all,
+						"the default backend holds region records only while useRegionStorage is not set")
+				}
+			}
+		}
+	}
+	if n < 9 {
+		c.Undec(rule, "region backend uses", "at least 9 in LoadRegion, LoadRegions, LoadRegionsOnce, SaveRegion, DeleteRegion", "", fmt.Sprintf("found %d", n))
+	}
+}
+
 func init() {
 	register("C17", "Persisted stores and regions are loaded back completely and pruned consistently", func(c *Ctx) {
 		c.Group("C17/key-format", "all store/region key builders (storage, bootstrap, weights) render ids with the same zero-padded width and segments", func() { ruleKeyFormats(c) })
 		c.Group("C17/load-prunes", "loading deletes every region the callback reports from the backend being read, pages by last id + 1 and stops only on a short page; items live under their own id's key", func() { ruleLoadAndPrune(c) })
+		c.Group("C17/backend-selection", "load, save and delete of region records select the backend by the same useRegionStorage test", func() { ruleRegionBackendSelection(c) })
 		c.Group("C17/batch-buffer", "region batch buffer: fields under its lock, written under the lock, emptied only after a successful write, flushed before close", func() { ruleBatchBuffer(c) })
 	})
 }
